@@ -8,10 +8,14 @@ from . import run, world
 
 
 def norm_events(events, R):
+    """what must be equal between the reference run and a crash/fault re-run
+    up to the injection point: operation, class and the directory of each
+    path (the last component may be a generated name)"""
     out = []
     for e in events:
         out.append((e['op'], e['c'],
-                    tuple((p.replace(R, '@R') if p else p) for p in e['p'])))
+                    tuple((os.path.dirname(p.replace(R, '@R')) if p else p)
+                          for p in e['p'])))
     return out
 
 
